@@ -128,6 +128,7 @@ M = [
     ("m91", "C15", "src/redis/resp_optimized.rs", "            from = pos + 1;", "            from = pos + 2;", r"R15\.14"),
     ("m92", "C19", "src/replication/hash_ring.rs", "        self.physical_nodes.retain(|n| *n != node);", "        self.physical_nodes.retain(|n| *n != node);\n        self.replication_factor = self.replication_factor.min(self.physical_nodes.len().max(1));", r"R19\.8"),
     ("m93", "C02", "src/production/sharded_actor.rs", "    async fn execute(&self, cmd: Command, virtual_time: VirtualTime) -> RespValue {", "    async fn execute(&self, cmd: Command, virtual_time: VirtualTime) -> RespValue {\n        let _ = tokio::time::timeout(std::time::Duration::from_millis(0), std::future::ready(())).await;", r"R02\.9"),
+    ("m94", "C01", "src/redis/executor/set_ops.rs", "            None => RespValue::Array(Some(Vec::new())),", "            None => RespValue::BulkString(None),", r"R01\.19"),
 ]
 
 
